@@ -36,6 +36,7 @@ def cases(draw):
             spine = n // 2
             edges = [[i, i + 1] for i in range(spine - 1)] + [[i, spine + i] for i in range(n - spine)]
         return {"shape": shape, "n": n, "edges": None, "perm_seed": draw(st.integers(0, 1000))}
+    own = draw(st.integers(0, 3)) == 0
     n = draw(st.integers(1, 14))
     if shape == "tree":
         edges = [[draw(st.integers(0, i - 1)), i] for i in range(1, n)]
@@ -55,20 +56,53 @@ def cases(draw):
         if shape == "components" and n >= 4:
             half = n // 2
             edges = [e for e in edges if (e[0] < half) == (e[1] < half)]
-    return {"shape": shape, "n": n, "edges": edges, "perm_seed": 0}
+    return {"shape": shape, "n": n, "edges": edges, "perm_seed": 0, "own_variables": own}
 
 
 def case_strategy(tier):
     return cases()
 
 
+# The builder runs on a thread of its own (an empty stack, the interpreter's default recursion limit): the depth at
+# which the unchanged tree gives up is then a constant of the code, not of the harness.  Measured on the unchanged
+# tree: chains of up to RECURSION_DEPTH_OK variables are built, longer ones raise RecursionError.
+RECURSION_DEPTH_OK = 496
+
+
 def classify(case, out):
     """Known finding C17-recursion-long-path: the builder is a recursive token-passing DFS (two Python frames per
-    tree level, plus a recursive generator to walk the result); it raises RecursionError once the DFS tree is
-    deeper than roughly 450 levels.  Only a RecursionError on a graph whose longest simple path is >= 300 matches."""
-    if out.info.get("exc") == "RecursionError" and out.info.get("longest_path_at_least", 0) >= 300:
+    tree level); with the default recursion limit of 1000 it raises RecursionError once the DFS tree is deeper than
+    RECURSION_DEPTH_OK levels.  Only a RecursionError on a graph whose DFS tree must be deeper than that matches: a
+    builder that gives up earlier is a different failure."""
+    if out.info.get("exc") == "RecursionError" and out.info.get("dfs_depth_at_least", 0) > RECURSION_DEPTH_OK:
         return "C17-recursion-long-path"
     return None
+
+
+def _on_clean_stack(fn):
+    """Run fn() on a fresh thread (recursion depth is counted per thread) with the default recursion limit."""
+    import sys
+    import threading
+    box = {}
+
+    def target():
+        try:
+            with under_test():
+                box["value"] = fn()
+        except BaseException as e:  # re-raised in the caller
+            box["error"] = e
+
+    old = sys.getrecursionlimit()
+    sys.setrecursionlimit(1000)
+    try:
+        t = threading.Thread(target=target, name="c17-builder")
+        t.start()
+        t.join()
+    finally:
+        sys.setrecursionlimit(old)
+    if "error" in box:
+        raise box["error"]
+    return box["value"]
 
 
 def materialise(case):
@@ -116,14 +150,28 @@ def run_case(case):
             from pydcop.dcop.relations import NeutralRelation
             dom = Domain("d", "d", [0, 1])
             variables = [Variable(nm, dom) for nm in names]
-            rels = [NeutralRelation([variables[i] for i in e], name="c%d" % k) for k, e in enumerate(edges)]
+            if case.get("own_variables"):
+                # every constraint carries Variable objects of its own (equal to, but not the same objects as, the
+                # ones handed over as variables=): what constraints rebuilt from their wire form or built on
+                # Variable.clone() look like
+                labels.append("own-variable-objects")
+                rels = [NeutralRelation([Variable(names[i], dom) for i in e], name="c%d" % k)
+                        for k, e in enumerate(edges)]
+            else:
+                rels = [NeutralRelation([variables[i] for i in e], name="c%d" % k) for k, e in enumerate(edges)]
+
+        def build():
             graph = pseudotree.build_computation_graph(None, variables=variables, constraints=rels)
             nodes = {}
             for node in graph.nodes:
                 if node.name in nodes:
-                    return Outcome(False, "two nodes for variable %s" % node.name, nontrivial, labels)
+                    return node.name, None
                 nodes[node.name] = node
-            rel = {nm: pseudotree.get_dfs_relations(nodes[nm]) for nm in nodes}
+            return nodes, {nm: pseudotree.get_dfs_relations(nodes[nm]) for nm in nodes}
+
+        nodes, rel = _on_clean_stack(build)
+        if rel is None:
+            return Outcome(False, "two nodes for variable %s" % nodes, nontrivial, labels)
         if sorted(nodes) != names:
             missing = sorted(set(names) - set(nodes))[:5]
             return Outcome(False, "%d nodes for %d variables (missing e.g. %r)" % (len(nodes), n, missing), nontrivial, labels)
@@ -217,5 +265,6 @@ def run_case(case):
     except UnderTestError as e:
         return Outcome(False, "pseudo-tree construction for %s graph of %d variables raised %s at %s" % (
             case["shape"], n, str(e)[:120], e.frame), nontrivial, labels,
-            info={"exc": e.exc_type, "n": n, "longest_path_at_least": n if case["shape"] == "chain" else n // 2})
+            info={"exc": e.exc_type, "n": n,
+                  "dfs_depth_at_least": n if case["shape"] == "chain" else n // 2 + 1 if case["shape"] == "caterpillar" else 0})
     return Outcome(True, "", nontrivial, labels, info={"n": n})
